@@ -44,7 +44,7 @@ META = {
                     "numpy/CPython arithmetic is the trusted base for value equality"],
     "probes": ["step_failed", "step_switched", "step_raised", "zero_trip_loop", "else_taken",
                "failed_then_completed", "op_after_raise", "t_end_stop", "cap_abandon", "second_instance",
-               "interpreter_after_codegen_on_same_objects"],
+               "interpreter_after_codegen_on_same_objects", "builder_extended_after_phase_snapshot"],
  },
  "C11": {
     "level": "fault_enumeration",
@@ -66,7 +66,8 @@ META = {
                     "X3/X4 are evaluated for programs whose fault-free step is well defined"],
     "probes": ["fault_after_persistent_write", "fault_in_loop", "fault_in_guarded", "second_fault",
                "fault_first_call", "resume_steps", "interleaved_resumption",
-               "fault_after_completed_step_of_same_run_call", "fault_not_an_Exception_subclass"],
+               "fault_after_completed_step_of_same_run_call", "fault_not_an_Exception_subclass",
+               "write_waits_for_call_through_a_nop_barrier", "held_exception_released_inside_a_later_step"],
  },
 }
 
@@ -182,7 +183,7 @@ class Built:
     pass
 
 
-def build_all(ctx, sc, tape, permute=True):
+def build_all(ctx, sc, tape, permute=True, edit=None):
     """Apply the script on real builders; make the interpreter's DAGCode (tape-owned
     orders) and the generated class."""
     b = Built()
@@ -201,8 +202,30 @@ def build_all(ctx, sc, tape, permute=True):
     if permute:
         order = [order[i] for i in tape.perm(len(order), "phaseorder")]
     from dagrt.language import ExecutionPhase
-    for ph in order:
+    # the phase may be taken from the builder by as_execution_phase() -- a snapshot: calls that the same
+    # builder receives afterwards (here: a yield nobody wrote into this program) do not belong to it
+    snapshots = {}
+    with tape.span("snapshot"):
+        if tape.chance(0.2, "phase_snapshot_then_more_calls"):
+            from pymbolic import var as _var
+            for ph in sc.phases:
+                cb = ap.builders[ph.name]
+                snap = cb.as_execution_phase(ph.next_phase)
+                if tape.chance(0.5, "snapshot_used_first"):
+                    snap.depends_on
+                cb.yield_state(_var("<t>") + 12345, "leak", _var("<t>"), "leak")
+                snapshots[ph.name] = snap
+            ctx.count("probe:builder_extended_after_phase_snapshot")
+    b.phase_stmts = {}
+    for ph in sc.phases:
         stmts = list(ap.builders[ph.name].statements)
+        if ph.name in snapshots:
+            stmts = sorted(snapshots[ph.name].statements, key=lambda st: int(st.id.rsplit("_", 1)[1]))
+        if edit is not None:
+            stmts = edit(ph.name, stmts)
+        b.phase_stmts[ph.name] = stmts
+    for ph in order:
+        stmts = list(b.phase_stmts[ph.name])
         if permute:
             stmts = [stmts[i] for i in tape.perm(len(stmts), "storage")]
         plain_phases[ph.name] = ExecutionPhase(ph.name, ph.next_phase, stmts)
@@ -226,7 +249,7 @@ def build_all(ctx, sc, tape, permute=True):
     b.chooser = chooser
     sim_phases = {}
     for ph in order:
-        stmts = [st.copy() for st in ap.builders[ph.name].statements]
+        stmts = [st.copy() for st in b.phase_stmts[ph.name]]
         for st in stmts:
             st.depends_on = OrdFS(st.depends_on, chooser, "deps:" + st.id)
         if permute:
@@ -704,14 +727,38 @@ def run_c11(ctx):
     sc = gen.gen()
     if not sc.funcs:
         raise Discard("no-user-function")
-    b = build_all(ctx, sc, tape, permute=False)
+    def barriers(phase_name, stmts):
+        """hand-written ordering barriers: a Nop that waits for a user call, and a later write of a
+        persistent variable that waits for the Nop (no data flows from the call to the write)."""
+        from dagrt.language import Assign as _Assign, Nop as _Nop
+        with tape.span("barriers"):
+            if not tape.chance(0.3, "barriers"):
+                return stmts
+            out = list(stmts)
+            calls = [i for i, st in enumerate(out) if "<func>" in str(st)]
+            for bi in range(2):
+                if not calls:
+                    break
+                fi = calls[tape.draw(len(calls), "barrier_call")]
+                later = [i for i in range(fi + 1, len(out)) if isinstance(out[i], _Assign)
+                         and is_persistent(out[i].assignee) and out[fi].id not in out[i].depends_on]
+                if not later:
+                    continue
+                wi = later[tape.draw(len(later), "barrier_write")]
+                nop = _Nop(id="barrier_%s_%d" % (phase_name, bi), depends_on=[out[fi].id])
+                out[wi] = out[wi].copy(depends_on=frozenset(out[wi].depends_on) | {nop.id})
+                out.append(nop)
+                ctx.count("probe:write_waits_for_call_through_a_nop_barrier")
+            return out
+
+    b = build_all(ctx, sc, tape, permute=False, edit=barriers)
     ctx.decoded["script"] = sc.text(b.ap.nm)
     ctx.decoded["features"] = sc.features
     chooser = SeqChooser(sched_seed, enabled=permute)
     # interpreter DAG with SeqChooser-owned orders
     sim_phases = {}
     for ph in sc.phases:
-        stmts = [st.copy() for st in b.ap.builders[ph.name].statements]
+        stmts = [st.copy() for st in b.phase_stmts[ph.name]]
         for st in stmts:
             st.depends_on = OrdFS(st.depends_on, chooser, "deps:" + st.id)
         sim_phases[ph.name] = SimPhase(ph.name, ph.next_phase, stmts, chooser)
@@ -731,6 +778,7 @@ def run_c11(ctx):
         pre_steps = tape.draw(4, "pre_steps")
         step_mode = ["single", "run1", ("run", 2), ("run", 3)][tape.weighted([3, 3, 1, 1], "step_mode")]
         interleave = tape.chance(0.3, "interleave_resumed_and_fresh")
+        hold_exception = tape.chance(0.4, "hold_exception")
         exc_cls = FAULT_CLASSES[tape.draw(len(FAULT_CLASSES), "exc")]
         n_after = 1 + tape.draw(3, "n_after")
         second_fault = tape.chance(0.3, "second_fault")
@@ -825,7 +873,7 @@ def run_c11(ctx):
                     raise Violation("temporary-visible", "%s: per-step names still visible: %r" % (label, temps),
                                     site=kind)
                 # X3 / X4 against the written program's fault-free step from the same state
-                stmts = list(b.ap.builders[step_phase].statements)
+                stmts = list(b.phase_stmts[step_phase])
                 pos = {st.id: i for i, st in enumerate(stmts)}
                 deps_idx = [[pos[d] for d in st.depends_on] for st in stmts]
                 F = [i for i, st in enumerate(stmts) if fn_fired in str(st)]
@@ -855,6 +903,18 @@ def run_c11(ctx):
                                         "any more" % (label, v, show(step_pre[v])), site=kind + ":vanished")
                 if any(not same_value(post.get(v), step_pre.get(v)) for v in post):
                     ctx.count("probe:fault_after_persistent_write")
+                # the caller keeps the exception (with its traceback and every frame it pins) in a "last
+                # error" slot and lets go of it at some later user-function call -- possibly in the middle of
+                # a later step; nothing else refers to it from here on
+                holder = {"exc": out[1] if hold_exception else None}
+                exc = out = evs = None
+                A.table.fault_exc = None
+
+                def release(fn_, idx_, _h=holder):
+                    if _h["exc"] is not None and tape.chance(0.35, "release_held_exception"):
+                        _h["exc"] = None
+                        ctx.count("probe:held_exception_released_inside_a_later_step")
+                A.table.on_call = release if hold_exception else None
                 # X5 resumption: old object vs a fresh stepper installed with the same state
                 B = mk(kind)
                 B.install(post, A.obj.next_phase)
